@@ -20,7 +20,8 @@ import speclib  # noqa
 speclib.install_recorders()
 
 INTS = [0, 1, 15, 16, 30, 31, 60, 61, 2, 14, 17, 29, 32, 59, 62, 100, 1000, -1]
-STRS = ["a", "", "Python", "x/y.py", "b"]
+STRS = ["a", "", "Python", "x/y.py", "b", "// nocl", "#nocl x", "/* NOCL */", "// see nocl", "//  NoCl", "# not", "  ", "\n", "(", ")", "{", "}",
+        "x", "=>", "function", ";nocl", "/*nocl*/", "nocl", "//", "def"]
 
 
 def split_top(s):
@@ -91,6 +92,10 @@ class Gen:
             return out
         if t.startswith("ext:") or t.startswith("ext__"):
             kind = t.split(":")[-1].replace("ext__", "")
+            if kind == "TokType":
+                from pygments.token import Token as T
+                return [T.Comment.Single, T.Comment.Multiline, T.Text, T.Text.Whitespace, T.Name, T.Name.Function, T.Keyword,
+                        T.Punctuation, T.Operator, T.Literal.String, T.Comment.Preproc]
             if kind == "Path":
                 from pathlib import Path
                 return [Path("a.py"), Path("/abs/b.py")]
@@ -132,12 +137,12 @@ class Gen:
         if any(not p for p in pools.values()):
             return []   # not constructible from the declared schema: never hand out half-built objects
         out = []
-        n = 6 if depth == 0 else (4 if depth < 3 else 2)
+        n = 10 if depth == 0 else (8 if depth < 2 else (4 if depth < 3 else 2))
         for i in range(n):
             o = cls.__new__(cls)
             for j, f in enumerate(names):
                 p = pools[f]
-                v = p[(i * (j + 1) + j) % len(p)] if i < n - 2 else self.rnd.choice(p)
+                v = p[(i * (j + 1) + j) % len(p)] if i < 3 else self.rnd.choice(p)
                 object.__setattr__(o, f, dc(v))
             out.append(o)
         return out
